@@ -234,7 +234,16 @@ pub fn run_case(case: &Value, idx: usize, seed: u64, pool: &mut KeyPool, out: &m
 			}
 		}
 		match self_signed_logged(&idesc, signer, "issuer", &case_id, out) {
-			Some((c, raw)) => (Some(c), json!({"dn": issuer_dn, "kid": issuer_kid, "subjectRaw": raw})),
+			Some((c, raw)) => {
+				// the subject key identifier the issuer certificate actually carries (read from its bytes)
+				let ski = x509::Walker::new()
+					.certificate(c.der())
+					.ok()
+					.and_then(|v| v["exts"].as_array().and_then(|a| a.iter().find(|e| sval(e, "oid") == "2.5.29.14").map(|e| e["id"].clone())))
+					.map(|id| json!({"k": "some", "b": id}))
+					.unwrap_or(json!({"k": "none", "b": []}));
+				(Some(c), json!({"dn": issuer_dn, "kid": issuer_kid, "subjectRaw": raw, "ski": ski}))
+			},
 			None => return,
 		}
 	};
